@@ -808,6 +808,11 @@ func (m *Manager) configureTasks(envId uid.ID, tasks Tasks) error {
 }
 
 func (m *Manager) transitionTasks(envId uid.ID, tasks Tasks, src string, event string, dest string, commonArgs controlcommands.PropertyMap) error {
+	if len(tasks) == 0 {
+		// nothing to command (e.g. all tasks of the environment are non-critical and gone): nothing can fail
+		return nil
+	}
+
 	notify := make(chan controlcommands.MesosCommandResponse)
 	receivers, err := tasks.GetMesosCommandTargets()
 	if err != nil {
